@@ -66,9 +66,9 @@ def main():
     try:
         if rc == 0:
             sh(["git", "-C", REPO, "reset", "-q"])  # --3way stages; unstage
-            rcb, outb = sh("go build . ./codec/... ./socket/... ./utils/... ./xfer/... ./plugin/... ./proto/... && go build -tags verif . ./plugin/... ./proto/... ./mixer/websocket/...", cwd=REPO)
+            rcb, outb = sh("go build . ./codec ./socket ./utils ./xfer/... ./proto/jsonproto ./proto/pbproto ./proto/httproto && go build -tags verif . ./plugin/... ./proto/... ./mixer/websocket/...", cwd=REPO)
             res["build"] = {"rc": rcb, "tail": outb[-600:]}
-            rct, outt = sh("go test -vet=off -count=1 ./codec/... ./socket/... ./utils/... ./xfer/gzip/... ./mixer/websocket/websocket/...", cwd=REPO, timeout=900)
+            rct, outt = sh("go test -vet=off -count=1 ./codec ./socket ./utils ./xfer/gzip ./mixer/websocket/websocket", cwd=REPO, timeout=900)
             res["existing_tests"] = {"rc": rct, "tail": outt[-600:]}
             rc1, out1 = run_demo(os.path.join(src, "demo"))
             res["demo_changed"] = {"rc": rc1, "tail": out1[-600:]}
